@@ -20,7 +20,7 @@ RULE = ("exhaustive table outcome(5 plain + 6 eager × {bare, setResult, setExce
         "callback+setResult}) × retry-state(4) × recurring(2) × result(2) × converter(2), all jobs of one converter "
         "processed concurrently by one worker; plus PRNG-drawn mixes with random tasks_limit and store failures; "
         "a case = one delivery, distinct by (outcome, retry class, recurring, result, converter)")
-ASSUMPTIONS = ["in-memory broker; BaseExceptions other than _NoAction/CancelledError are outside the statement",
+ASSUMPTIONS = ["Redis / RabbitMQ runs use in-process fake servers (assumption sets R, A)", "in-memory broker; BaseExceptions other than _NoAction/CancelledError are outside the statement",
                "payload-bucket fetch failures happen before actor_run and are not in the statement's list"]
 
 PLAIN = [{"k": "ret"}, {"k": "raise"}, {"k": "timeout"}, {"k": "depFail"}]
@@ -182,6 +182,14 @@ def run(ctx) -> Result:
               "horizon_s": 12.0}
         r = vtime.run(lambda loop, s=sc: run_scenario(s), budget=30_000_000)
         check_run(r, model, res, f"mix-{seed}-{i}")
+    # the same worker on the Redis and RabbitMQ brokers (in-process fake servers): disposition per delivery
+    for kind in ("redis", "rabbit"):
+        r3 = Rng(seed, f"c02/{kind}")
+        jobs = r3.sample(table_jobs(True, r3), 60 if deep else 30)
+        sc = {"jobs": jobs, "converter": "basic", "policy": {"kind": "const", "us": 300_000}, "horizon_s": 14.0, "broker": kind}
+        r = vtime.run(lambda loop, s=sc: run_scenario(s), budget=80_000_000)
+        check_run(r, model, res, f"table-{kind}")
+        res.dist[f"broker:{kind}"] += len(jobs)
     return res
 
 
